@@ -67,6 +67,7 @@ class FnSpec:
         self.is_item = False      # verbatim type/const item rather than a function
         self.what = None
         self.at = None
+        self.strip_attrs = False
 
     @property
     def name(self):
@@ -111,6 +112,8 @@ def parse_file(path):
                 cur.what = arg
             elif d == 'at':
                 cur.at = arg
+            elif d == 'strip_attrs':
+                cur.strip_attrs = True
             elif d == 'scope':
                 cur.scope = arg
             elif d == 'emit':
